@@ -1,6 +1,7 @@
 // helpers shared by the natively executed harnesses: build FEAT containers from a pattern + scalar generator,
 // dense expansions (the independent oracle side), abort capture.
 #pragma once
+#include <type_traits>
 #include "symreal.hpp"
 #include "vh_abort.hpp"
 #include <kernel/lafem/dense_vector.hpp>
@@ -172,4 +173,20 @@ namespace vh
   }
   // run f, report whether the FEAT abort stub was reached
   template<typename F> bool aborted(F f) { try { f(); } catch(const FeatAbort&) { return true; } catch(const std::exception&) { return true; } return false; }
+
+  // Does f read uninitialised memory?  Symbolic build: an uninitialised SymReal has no validity tag and its use is fatal, so f is probed in
+  // a forked child (needs MALLOC_PERTURB_, which ./check sets).  Double build (replay): malloc fills every block with 0xFF bytes (NaN as
+  // double, see below), f itself returns whether all of its results are finite.
+  template<typename DT, typename F> bool uninit_free(F f)
+  {
+    if constexpr(std::is_same<DT, double>::value) return f();
+    else return survives([&] { (void)f(); }) == 0;
+  }
 }
+
+#ifdef VH_REPLAY
+// replay builds: every malloc'ed block starts as 0xFF bytes, i.e. uninitialised doubles are NaN and propagate visibly
+#include <cstring>
+extern "C" void* __libc_malloc(size_t);
+extern "C" void* malloc(size_t n) { void* p = __libc_malloc(n); if(p != nullptr) std::memset(p, 0xFF, n); return p; }
+#endif
